@@ -26,7 +26,12 @@ pub struct Dump {
 impl<T, A: Allocator> RawTable<T, A> {
     /// Dumps counters and control bytes.
     pub fn verif_dump(&self) -> Dump {
-        let n = self.table.bucket_mask + 1 + Group::WIDTH;
+        // the unallocated singleton points at the static group of WIDTH empty bytes
+        let n = if self.table.is_empty_singleton() {
+            Group::WIDTH
+        } else {
+            self.table.bucket_mask + 1 + Group::WIDTH
+        };
         let mut ctrl = Vec::with_capacity(n);
         for i in 0..n {
             // `Tag` is `repr(transparent)` over `u8`.
